@@ -488,6 +488,9 @@ func checkC16(c *Ctx) {
 			r.Check(okA, "C16.ring-top", fnName(AC)+":returns-GetKill", p.Pos(AC.Pos()), "Active returns GetKill() when no register is selected", "Buffers.Active no longer returns the kill ring's top when no register is selected")
 		}
 	}
+	checkMatchersPaired(c, "C16.matchers-paired")
+	checkAbortRespected(c, "C16.abort-respected")
+	checkErrPolarity(c, "C16.err-polarity")
 }
 
 func instrString(in ssa.Instruction) string {
